@@ -100,13 +100,13 @@ func mergeTypes(a, b map[string]*ast.Definition, as, bs *ast.Schema) (map[string
 			continue
 		}
 
+		if nvb.Kind != va.Kind {
+			return nil, fmt.Errorf("name collision: %s(%s) conflicts with %s(%s)", nvb.Name, nvb.Kind, va.Name, va.Kind)
+		}
+
 		// skip node
 		if nvb.Name == common.NodeInterfaceName {
 			continue
-		}
-
-		if nvb.Kind != va.Kind {
-			return nil, fmt.Errorf("name collision: %s(%s) conflicts with %s(%s)", nvb.Name, nvb.Kind, va.Name, va.Kind)
 		}
 
 		// if it's scalar just override it
